@@ -37,6 +37,8 @@ STRUCT_EXEMPT = {"__setitem__", "__init__", "__delitem__", "__iadd__", "__imul__
 
 def check(ctx):
     repo = ctx.repo
+    from . import generic as _gen
+    _gen.language_traps(ctx, _gen.anchor_functions(repo, "C17"), "the property holds for every input, on every call")
     I = interp(repo)
     cls = repo.cls(LOD)
     ctx.rule("EFF-1", "write effect on item dicts of the receiver only in deco.obsoletes methods; never on items of "
